@@ -321,8 +321,8 @@ pub fn run(tier: Tier, seed: u64, only: Option<String>) -> i32 {
         "silent_round_has_no_target_hop",
         "largest_ttl_from_genuine_responses",
     ];
-    let n = tier.pick(1500, 30_000);
-    let m = tier.pick(1500, 100_000);
+    let n = tier.pick(30_000, 400_000);
+    let m = tier.pick(30_000, 1_000_000);
     match only {
         Some(s) if s.starts_with('s') => rep.merge(synthetic(seed, s[1..].parse().unwrap_or(0))),
         Some(s) => {
